@@ -81,15 +81,19 @@ def selftest():
 
 WIDE = {"<start>": ["<l>"], "<l>": ["<i>" * 40, "<i>" * 30 + ";<l>", "<i><i>"], "<i>": ["a", "b", "<d>", "(<l>)"],
         "<d>": ["0", "1", "5"]}
+# only used together with wide_tree's 260-children node (random derivations of it would be huge)
+WIDE260 = dict(WIDE, **{"<l>": WIDE["<l>"] + ["<i>" * 260]})
 
 
 def wide_tree(rnd):
-    """a 40-children node whose items are all equal except a few deviants, mostly in the tail
-    (child indices >= 28 are where a narrow path index would lose subtrees)"""
+    """a 40-children (sometimes 260-children) node whose items are all equal except a few deviants, mostly in the
+    tail (child indices >= 28, and >= 253 where the path index switches to two-character keys, are where a narrow
+    path index would lose or confuse subtrees)"""
     base = pick(rnd, ["a", "b"])
-    kids = [["<i>", [[base, []]]] for _ in range(40)]
+    n = 260 if chance(rnd, 0.3) else 40
+    kids = [["<i>", [[base, []]]] for _ in range(n)]
     for _ in range(rnd.randint(1, 3)):
-        pos = rnd.randint(28, 39) if chance(rnd, 0.7) else rnd.randint(0, 39)
+        pos = rnd.randint(n - 12, n - 1) if chance(rnd, 0.7) else rnd.randint(0, n - 1)
         dev = pick(rnd, [["<i>", [["b" if base == "a" else "a", []]]], ["<i>", [["<d>", [[pick(rnd, ["0", "1", "5"]), []]]]]],
                          ["<i>", [["(", []], ["<l>", [["<i>", [["a", []]]], ["<i>", [["b", []]]]]], [")", []]]]])
         kids[pos] = dev
@@ -126,18 +130,36 @@ def generate(rnd, tier):
     if name == "wide" and chance(rnd, 0.7):
         t = wide_tree(rnd)
         trees = [t]
+        if len(t[1][0][1]) == 260:
+            g = WIDE260
+            cg = rt.canon(g)
     lits = fml.sample_lits(cg, trees)
     numq = 0.9 if chance(rnd, 0.3) else 0.0
     fg = fml.FGen(rnd, cg, lits, dict(numq=numq, unused=0.04, mexpr_depth=pick(rnd, [2, 2, 2, 3, 4]), connectives=("and", "or", "not", "implies", "iff", "xor")[:rnd.randint(3, 6)]))
     if name == "wide" and chance(rnd, 0.6):
         # verdicts that hinge on single children of the 40-children node
         T = pick(rnd, ["<i>", "<i>", "<d>", "<l>"])
-        body = fg.atom([("v1", T)])
-        if chance(rnd, 0.3):
-            body = ["not", body]
+        if T == "<i>" and chance(rnd, 0.4):
+            # a nested quantifier 'in v1': its domain is the sub-trie below one child of the wide node
+            T2 = pick(rnd, ["<d>", "<d>", "<i>"])
+            body = fg.atom([("v1", T), ("v2", T2)] if chance(rnd, 0.5) else [("v2", T2)])
+            if chance(rnd, 0.3):
+                body = ["not", body]
+            body = [pick(rnd, ["forall", "exists"]), T2, "v2", "v1", None, body]
+        else:
+            body = fg.atom([("v1", T)])
+            if chance(rnd, 0.3):
+                body = ["not", body]
         f = [pick(rnd, ["forall", "exists"]), T, "v1", "start", None, body]
     else:
         f = fg.formula([("start", "<start>")], rnd.randint(1, 3))
+    if numq == 0.0 and chance(rnd, 0.3):
+        # the quantifier-elimination strategy is chosen for the WHOLE constraint as soon as one numeric quantifier occurs
+        # in it: put an ordinary constraint (tree quantifiers, match expressions, structural predicates) next to a small
+        # numeric-quantifier formula, so that every construct is also judged by that strategy
+        n = fg.fresh("n")
+        nq = [pick(rnd, ["existsint", "existsint", "forallint"]), n, fg.num_body([("start", "<start>")], 0, n)]
+        f = [pick(rnd, ["and", "or", "and"])] + ([f, nq] if chance(rnd, 0.5) else [nq, f])
     if chance(rnd, 0.2):
         f = fml.reuse_names(rnd, f)
     return {"grammar": g, "gname": name, "tree": t, "formula": f}
